@@ -29,7 +29,8 @@ BOUNDS = ("Decided for constant-speed curves in ARC-LENGTH terms only: the curve
           "exactly at L; vertices strictly advance; no segment longer than 1.12 resolution units; "
           "every segment except the first and the last at least 0.9 resolution units minus 1e-9; "
           "hence (m-2)*0.9*res <= L <= m*1.12*res for the segment count m. Halving the resolution "
-          "(N -> 2N or 2N+1) never yields fewer segments (N = 2..12). Units switch: for every "
+          "(N -> 2N or 2N+1) never yields fewer segments (N = 2..12). The length arc() hands to parametric() is hypot(radius x sweep, Z travel) "
+          "(numpy hypot/arctan2 return recognisable dummies). Units switch: for every "
           "resolution r > 0, mm -> in -> mm returns r (up to 1e-9 relative) and mm -> in divides by "
           "25.4. NOT decided: chord lengths of curved shapes, chord-error bound, shapes that are "
           "not constant speed (spline, spiral).")
@@ -298,6 +299,13 @@ def cells(tier):
     for N in range(2, 9 if quick else 13):
         out.append(Cell(f"halving|N={N}|res=0.1", _make_halving(N, 0.1), budget_s=300 if quick else 900,
                         must_reach=("checked",), entry="PathTracer.parametric"))
+    # the path length handed to parametric() by arc(): hypot(radius x sweep, Z travel)
+    from .c10 import _make_arc_height
+    for rel in (False, True):
+        for direction in ("clockwise", "counter"):
+            out.append(Cell(f"arc-path-length|{'rel' if rel else 'abs'}|3d|{direction}",
+                            _make_arc_height(rel, 3, direction), budget_s=120, must_reach=("captured",),
+                            entry="PathTracer.arc (length handed to parametric)"))
     out.append(Cell("units-switch-rescales-resolution", _make_units(), budget_s=120,
                     must_reach=("checked",), entry="GCodeBuilder.set_length_units"))
     return out
